@@ -70,4 +70,16 @@ PROPS = {
    'must_reach': ['net-c20', 'base'],
    'technique': 'symbolic execution of ill-posed networks under all algorithms in one exploration (removed points, refusal, results compared); dependent-unknown flags checked against exact rank computations',
    'bounds': '7 ill-posed levelling/vector networks (no datum, two components with one datum, dangling part, all fixed) x 3 algorithms; Adj level: ' + ADJ_BOUNDS, 'outside': NET_OUT, 'assumptions': NET_ASSUME + ADJ_ASSUME},
+ 'C09': {'e1': [{'harness': 'net', 'entry_points': NET_ENTRY + ['LocalNetwork::m_0/m_0_aposteriori_value/degrees_of_freedom/conf_int_coef/unknown_stdev/stdev_obs/wcoef_res/weight_obs/std_error_ellipse'], 'budget_s': {'quick': 500, 'thorough': 2400}}],
+   'must_reach': ['net-c09'],
+   'technique': 'symbolic execution of the statistics members on symbolic adjustments; each documented relation (dof, m0, standard deviations, residual cofactors, ellipse eigen-relations through the atan2 contract, sigma-apr scaling) is a solver-checked identity against the exact oracle',
+   'bounds': NET_BOUNDS + '; plus networks with dof 0, 1, 2; both sigma-act settings; conf-pr 0.90/0.95; second sigma-apr 2.5', 'outside': NET_OUT + '; accuracy of Normal/Student (uninterpreted in the symbolic build, C17); printed fields; order a>=b of ellipse axes when m0 is symbolic',
+   'assumptions': NET_ASSUME + ['GNU_gama::Normal/Student/Chi_square are uninterpreted functions in the symbolic build (symx/statan_stub.cpp)']},
+ 'C05': {'e1': [{'harness': 'lin', 'entry_points': ['LocalLinearization::direction/distance/angle/azimuth/s_distance/z_angle/h_diff/x/y/z/xdiff/ydiff/zdiff', 'bearing_distance', 'Observation::accept', 'StandPoint orientation/index'], 'budget_s': {'quick': 400, 'thorough': 1500}}],
+   'must_reach': ['lin-distance', 'lin-direction', 'lin-azimuth', 'lin-angle', 'lin-sdistance', 'lin-zangle', 'lin-linear'],
+   'technique': 'symbolic execution of LocalLinearization on real point/observation/cluster objects with fully symbolic coordinates, observed value and orientation; coefficients compared with the Jacobian stated from the defining relation as nonlinear real-arithmetic queries (z3 nlsat), wrap-around loops explored by solver-decided forks',
+   'bounds': 'every observation type; every fixed/free(/constrained) mix of the 2-3 points (quick: constrained only on the diagonal; slope types 7 of 16 mixes); coordinates in [-1e4,1e4] (heights [-1e3,1e3]) with points at least 0.1 m apart; observed angle and orientation in [0,2pi) (<= 3 iterations of each normalisation loop); '
+             'atan2/sin/cos through their contract (pi := M_PI literal), sqrt exact',
+   'outside': 'acos inside z_angle\'s right-hand side (uninterpreted: only its argument and unit factor are checked); rounding of the unit constants 10*R2G and R2CC (taken as written in the source, value checked to 1e-9); points closer than 0.1 m',
+   'assumptions': ['exact real arithmetic', 'libm contract for atan2/sin/cos/sqrt', 'closed forms of d(bearing)/d(coordinate) and d(zenith)/d(coordinate) written in the harness are the oracle (trusted)', 'z3 4.8.12 nlsat']},
 }
